@@ -89,7 +89,7 @@ def case_strategy(draw):
         case["value"] = draw(st.sampled_from(["nan", "inf", "-inf"]))
     if fault == "bad_patch_id":
         # (dtype of the patch-index column, offending value representable in it)
-        case["pid_dtype"], case["value"] = draw(st.sampled_from([("i8", -1), ("i8", 32768), ("i8", 70000), ("i4", -1), ("i4", 40000), ("i2", -1), ("i2", -32768), ("i1", -1), ("u2", 32768), ("u2", 65535), ("u4", 70000)]))
+        case["pid_dtype"], case["value"] = draw(st.sampled_from([("i8", -1), ("i8", 32768), ("i8", 70000), ("i4", -1), ("i4", 40000), ("i2", -1), ("i2", -32768), ("i1", -1), ("u2", 32768), ("u2", 65535), ("u4", 70000), ("f8", float("nan")), ("f8", float("nan")), ("f4", float("nan")), ("f8", float("inf")), ("f8", -1.0), ("f8", 40000.0)]))
     if fault == "empty_centre":
         case["at"] = draw(st.integers(0, K))
     if fault == "missing_column":
